@@ -147,6 +147,13 @@ Definition after_delete (m : mst) (p : N) (c : reg_call) (k : evkind) (out : lis
 Definition calls_to (out : list obs) : list N :=
   flat_map (fun o => match o with OCall p _ _ _ => [p] | _ => [] end) out.
 
+(* a local feature withdraws a request (RemoveRemoteSubscription / RemoveRemoteBinding): the records
+   of that feature, kind and remote address made over the connection(s) the delete call went to are
+   dropped - the bookkeeping is by connection; records of other connections stay *)
+Definition drop_ref (sub : bool) (e : eaddr) (f : N) (r : faddr) (qs : list N) (cr : list centry) : list centry :=
+  filter (fun x => negb (eqb_eaddr (c_ent x) e && N.eqb (c_feat x) f && Bool.eqb (c_sub x) sub &&
+                         (eqb_faddr (c_addr x) r && memN (c_ski x) qs))) cr.
+
 (* ---------- expectations ---------- *)
 Definition fanout (m : mst) (sf : lfeat) (fn v : N) : list obs :=
   map (fun x => ONotify (s_ski x) (lf_addr sf) (s_cli x) fn v)
@@ -263,6 +270,10 @@ Definition mon (m : mst) (o : op) (out : list obs) : mst * verdict :=
        silent (conn m) out)
   | HasLocalSub e f r => (follow m o, check (answers (has_ref m true e f r) out) CL_CLIENT)
   | HasLocalBind e f r => (follow m o, check (answers (has_ref m false e f r) out) CL_CLIENT)
+  | LocalUnsubscribe e f r =>
+      (set_accounts m o (conn m) (sreg m) (breg m) (drop_ref true e f r (calls_to out) (cref m)), silent (conn m) out)
+  | LocalUnbind e f r =>
+      (set_accounts m o (conn m) (sreg m) (breg m) (drop_ref false e f r (calls_to out) (cref m)), silent (conn m) out)
   | Resolve p dev =>
       (follow m o,
        check (eqb_list eqb_ret out
